@@ -831,6 +831,10 @@ class Engine:
         if m:
             a, b = dv(0), dv(1) if len(args) > 1 else None
             return one(('term', m.group(2), [a, b]))
+        if c in ('core::slice::<impl [T]>::len', 'alloc::vec::Vec::<T, A>::len', 'core::str::<impl str>::len'):
+            return one(('term', 'len', [dv(0)]))
+        if c in ('core::slice::<impl [T]>::is_empty', 'alloc::vec::Vec::<T, A>::is_empty'):
+            return one(('term', 'Eq', [('term', 'len', [dv(0)]), C(0)]))
         if c == 'std::time::SystemTime::now':
             s.nsym += 1
             return one(('sym', 'now#%d' % s.nsym))
